@@ -54,16 +54,18 @@ structure Run where
   digest : String
   time : String
   overwrite : Bool
+  snapshot : Bool := false   -- snapshot mode: files go to a separate snapshot directory, the manifest is not touched
 deriving Repr
 
 def basename (cand : String) : String :=
   (if cand == "" then "endorsement" else cand) ++ ".binarypb"
 
 /-- go: endorse.changeEndorsements/addEndorsement/defaultGenerateBasename for the manifest mode
-    (no snapshot directory, not dry-run).  Returns the new store and whether the run succeeded. -/
+    (not dry-run); a snapshot-mode run writes only under its own snapshot directory and leaves the output directory and the manifest alone.  Returns the new store and whether the run succeeded. -/
 def endorseRun (s : Store) (r : Run) : Store × Bool :=
   let b := basename r.cand
-  if (lookup s.files b).isSome && !r.overwrite then (s, false)
+  if r.snapshot then (s, true)
+  else if (lookup s.files b).isSome && !r.overwrite then (s, false)
   else
     ({ files := writeFile s.files b r.digest,
        manifest := addEntry s.manifest ⟨b, r.digest, r.time⟩ }, true)
